@@ -5,6 +5,7 @@ import Pandora.Model.C13Multi
 import Pandora.Model.C13Jsonline
 import Pandora.Model.C13Grpc
 import Pandora.Model.C13Cfg
+import Pandora.Model.C13Csv
 import Pandora.Spec.C13
 
 /-
@@ -598,7 +599,9 @@ def soptModel (kv : List (String × String)) : Option (Option String) := do
   let v ← optValue kv
   let slot := getS kv "slot"
   let absent := getS kv "abs" == "1"
-  if slot.endsWith ".type" then
+  -- `templater:` without its only line is a null value: no plugin is asked for, the request gets the default templater
+  if slot == "tmpl.type" && absent then some none
+  else if slot.endsWith ".type" then
     let vals := if absent then [] else [TypeVal.str v]
     some ((pluginOutcome vals).map fun o => if o == "err" then "end=ctor-err" else "end=" ++ o)
   else if slot == "csv.delimiter" && !absent then
@@ -607,6 +610,54 @@ def soptModel (kv : List (String × String)) : Option (Option String) := do
     | .panic _ => some (some "end=panic")
     | _ => some none
   else some none
+
+/-! ### the rows of a csv variable source (round 4): `k=csv` -/
+
+/-- what `csv.Reader` makes of a file, for files the driver reads itself: no `"` and no CR (so neither the reader's
+quoting nor its line-end rules are needed), an ASCII separator. Lines are cut at LF, empty lines are passed over, every
+line is cut at the separator, and a record with another number of columns than the first one is the reader's
+`ErrFieldCount`. `none` = the driver abstains, `some none` = the reader reports an error. -/
+def csvSafeParse (data : Bytes) (c : UInt8) : Option (Option (List (List Bytes))) :=
+  if data.any (fun b => b == 34 || b == 13) || c ≥ 128 then none
+  else
+    let recs := ((split data 10).filter fun l => !l.isEmpty).map fun l => split l c
+    match recs with
+    | [] => some (some [])
+    | r :: _ => if recs.all fun x => x.length == r.length then some (some recs) else some none
+
+/-- a row as the harness prints it: the map's cells `hex(name):hex(value)`, sorted -/
+def csvRenderRow (row : List (Bytes × Bytes)) : String :=
+  let keys := row.foldl (fun acc kv => if acc.contains kv.1 then acc else acc ++ [kv.1]) ([] : List Bytes)
+  let cells := keys.map fun k => s!"{hexB k}:{hexB ((rowLookup row k).getD [])}"
+  String.intercalate "," (cells.toArray.qsort (· < ·)).toList
+
+/-- `fields=`: `-` = the option is left out, nothing = one column without a name -/
+def csvFields (s : String) : Option (List Bytes) :=
+  if s == "-" then some [] else if s == "" then some [[]] else (s.splitOn ",").mapM bytesOfHex
+
+def csvPlain (b : Bytes) : Bool := b.all fun x => 32 ≤ x && x < 127
+
+def csvModel (kv : List (String × String)) : Option (Option String) := do
+  let data ← bytesOfHex (getS kv "file")
+  let fields ← csvFields (getS kv "fields")
+  let delim ← if getS kv "delim" == "-" then some [] else bytesOfHex (getS kv "delim")
+  -- option values outside printable ASCII are left to YAML / HCL
+  if !(fields.all csvPlain) || !(csvPlain delim) then
+    -- … but for the separator's control characters the reader refuses
+    if fields.all csvPlain && (csvOpen true delim).isErr then pure (some "end=ctor-err") else pure none
+  else
+    match csvOpen true delim with
+    | .err _ => pure (some "end=ctor-err")
+    | .ok c =>
+      match csvSafeParse data c with
+      | none => pure none
+      | some parsed =>
+        match readCsvModel true true (fun _ => parsed) (getS kv "ign" == "1") delim fields with
+        | .ok rows => pure (some s!"n={rows.length} e={String.intercalate ";" (rows.map csvRenderRow)} end=ok")
+        | .err _ => pure (some "end=ctor-err")
+        | .panic _ => pure (some "end=panic")
+        | .fatal _ => pure (some "end=fatal")
+    | _ => pure (some "end=panic")
 
 /-! ### the handler -/
 
@@ -737,6 +788,10 @@ def model (kv : List (String × String)) : Option (Option String × String) := d
   | "popt" =>
     let m ← poptModel kv
     pure (m, s!"pool config, plugin type of `{getS kv "where"}`")
+  | "mas" => pure (none, s!"{getS kv "fmt"} provider (max_ammo_size)")
+  | "csv" =>
+    let m ← csvModel kv
+    pure (m, s!"{getS kv "kind"}/scenario provider (csv variable source)")
   | "sopt" =>
     let m ← soptModel kv
     pure (m, s!"{getS kv "kind"}/scenario provider (option {getS kv "slot"})")
@@ -802,6 +857,13 @@ def fltVerdict (kv : List (String × String)) (impl : String) : Option String :=
   if getS kv "k" != "flt" then none
   some (fltJudge s!"{getS kv "fmt"} provider" (getS kv "mode") impl)
 
+/-- `k=mas`: the `max_ammo_size` option (round 4) -/
+def masVerdict (kv : List (String × String)) (impl : String) : Option String := do
+  if getS kv "k" != "mas" then none
+  let data := (bytesOfHex (getS kv "hex")).getD []
+  some (masJudge s!"{getS kv "fmt"} provider (max_ammo_size)" (getS kv "fmt") ((getS kv "mas").toInt?.getD 0)
+    ((split data 10).map fun l => (l.length : Int)) impl)
+
 def handle : Handler := fun input impl =>
   let kv := parseKV input
   match model kv with
@@ -813,7 +875,7 @@ def handle : Handler := fun input impl =>
     if m.isNone && getS kv "k" == "ammo" && getS kv "cc" != "" && getS kv "passes" == "0" && getS kv "limit" == "0" &&
         containsSub impl "hang" then ("-", "skip:inconclusive") else
     let isGrpc := getS kv "k" == "ammo" && getS kv "fmt" == "grpcjson"
-    let verdict := match ((randIntVerdict kv impl).orElse (fun _ => pfxVerdict kv impl)).orElse (fun _ => fltVerdict kv impl) with
+    let verdict := match (((randIntVerdict kv impl).orElse (fun _ => pfxVerdict kv impl)).orElse (fun _ => fltVerdict kv impl)).orElse (fun _ => masVerdict kv impl) with
       | some v => v
       | none =>
         if isGrpc then
